@@ -174,6 +174,10 @@ type Endpoint struct {
 	Closed       bool
 	Accepted     bool
 
+	fecGrp     uint32 // current FEC group of this endpoint's encoder (wire view)
+	fecGrpInit bool
+	fecGrpMTU  int // largest MTU in force while its data packets were emitted
+
 	Reader, Writer *Actor
 	ReaderDone     bool
 	WriterDone     bool
@@ -212,6 +216,12 @@ type World struct {
 	connFEC map[int][2]int
 
 	snmp0 *kcp.Snmp
+
+	// CheckOnce: C18 clean path - every data sn appears exactly once on the wire.
+	CheckOnce bool
+	// ReportParityStraddle: report (instead of counting) the recorded finding
+	// "parity of a group straddling an MTU reduction exceeds the new MTU".
+	ReportParityStraddle bool
 }
 
 // WorldOpt selects global knobs of a world.
@@ -268,6 +278,7 @@ func NewWorld(s *Sim, opt WorldOpt) *World {
 		kcp.VerifPoolGet, kcp.VerifPoolPut = nil, nil
 	}
 	kcp.VerifYield = s.yield
+	w.InstallBounds()
 	return w
 }
 
@@ -372,6 +383,13 @@ func (ep *Endpoint) State() kcp.VerifKCPState {
 	return st
 }
 
+// StateLite is State without the walk over the send buffer.
+func (ep *Endpoint) StateLite() kcp.VerifKCPState {
+	var st kcp.VerifKCPState
+	ep.Sess.VerifWithLock(func(k *kcp.KCP) { st = k.VerifStateLite() })
+	return st
+}
+
 // ---------------------------------------------------------------------------
 // teardown and leak census (O-leak)
 // ---------------------------------------------------------------------------
@@ -443,6 +461,26 @@ func (w *World) Teardown(order []int) (leaks []string) {
 		synctest.Wait()
 	}
 	return bubbleGoroutines()
+}
+
+// QuickClose closes everything without grace period or census (used after a
+// violation has already ended the run).
+func (w *World) QuickClose() {
+	for _, ep := range w.Eps {
+		if !ep.CloseInvoked {
+			ep.CloseInvoked = true
+			ep.Sess.Close()
+		}
+	}
+	if w.L != nil {
+		w.L.Close()
+	}
+	for _, c := range w.Net.list {
+		c.Close()
+	}
+	w.Sched.Close()
+	w.S.StopActors()
+	kcp.VerifYield = nil
 }
 
 // bubbleGoroutines lists goroutines of the current synctest bubble other than
